@@ -266,14 +266,22 @@ void run_case(verif::Src& s, verif::Stats& st, const bool literal)
                     have.erase(it);
                 }
             }
-            bool signed_ok = wallet::feebumper::SignTransaction(*ws.w, mtx);
-            if (!signed_ok && !og.all_mine) {
-                // foreign input: the harness holds that key (anyone-can-spend template)
+            bool signed_ok;
+            if (og.all_mine) {
+                signed_ok = wallet::feebumper::SignTransaction(*ws.w, mtx);
+            } else {
+                // psbtbumpfee flow: the foreign input (anyone-can-spend template / harness key) first, then the wallet's inputs with every coin supplied
                 std::map<COutPoint, RefCoin> spent;
-                RefUtxo view = L.chain_utxo;
-                for (auto& in : mtx.vin) { auto it = view.find(in.prevout); if (it != view.end()) spent[in.prevout] = it->second; }
+                std::map<COutPoint, Coin> cmap;
+                for (auto& in : mtx.vin) {
+                    auto it = L.chain_utxo.find(in.prevout);
+                    if (it == L.chain_utxo.end()) continue;
+                    spent[in.prevout] = it->second;
+                    cmap[in.prevout] = Coin(CTxOut(it->second.value, it->second.spk), it->second.height, it->second.coinbase);
+                }
                 sim.keys.Sign(mtx, spent);
-                signed_ok = true;
+                std::map<int, bilingual_str> errs;
+                signed_ok = ws.w->SignTransaction(mtx, cmap, SIGHASH_DEFAULT, errs);
             }
             VCHECK(signed_ok, "c56.harness", "could not sign the replacement");
             const CTransaction newtx(mtx);
